@@ -13,6 +13,8 @@ add_engine_binary('rel', 'rel_engine.cpp', [O('rel_reg.cpp', True, ['-DVF_NT=%d'
 
 BINARIES['math'] = dict(objs=[O('math_engine.cpp', True)], libs=D.ENGINE_LIBS)
 
+BINARIES['dir'] = dict(objs=[O('dir_engine.cpp', True)], libs=D.ENGINE_LIBS)
+
 PLANS = {}
 def plan(name):
     def deco(fn): PLANS[name] = fn; return fn
@@ -57,11 +59,13 @@ def c09(run):
 @plan('C10')
 def c10(run):
     engine_step(run, 'rel', ['C10'])
+    engine_step(run, 'dir', ['C10'])
     run.assumptions += ['lengths are generated inside the stated range with the guard band ||v||^2 >= min_normal 2^(p+2) (below it the squares of the components are subnormal)']
 
 @plan('C11')
 def c11(run):
     engine_step(run, 'rel', ['C11'])
+    engine_step(run, 'dir', ['C11'])
 
 @plan('C14')
 def c14(run):
